@@ -16,7 +16,7 @@ def run(run, model):
     run.do(inv.ctor, model)
     run.do(inv.self_rule, model)
     run.do(inv.meta_reapply, model, "C03.meta-reapply", None)
-    run.do(marker.body_rules, model, "C03.body-unheld", "C03.body-held")
+    run.do(marker.body_rules, model, None, "C03.body-held")
     run.minimum("C03.selection", 1)
     run.minimum("C03.selection-source", 1)
     run.minimum("C03.phases", 2)
